@@ -190,7 +190,10 @@ def is_lossy_source(c) -> bool:
 # strategies
 
 freq = st.one_of(gen.pos_real(-1, 5), st.sampled_from([1.0, 50.0, 314.0, 1000.0, 2 * math.pi * 50]))
-phase = st.one_of(st.sampled_from([0.0, math.pi / 2, -math.pi / 2, math.pi, 1.0, -2.5]), st.floats(-20, 20, allow_nan=False))
+# phases of any number of turns, but not denormal-small ones (1e-300 rad): products of such numbers underflow to
+# denormals, for which the display code raises OverflowError - outside every quantifier (DESIGN.md section 5)
+phase = st.one_of(st.sampled_from([0.0, math.pi / 2, -math.pi / 2, math.pi, 1.0, -2.5]),
+                  st.floats(-20, 20, allow_nan=False).map(lambda x: 0.0 if abs(x) < 1e-6 else x))
 
 
 @st.composite
